@@ -29,6 +29,8 @@ RULE = (
     'under every assignment), then of the sheet. In half of the cases a second DOM is reached by edits: every top-level rule of the '
     'sheet as written (literal, escaped, upper-case keywords) takes the text of its normalised twin; under the same preferences it '
     'must be written byte for byte like the sheet parsed from the normalised text, rule by rule and as a whole. special: indentSpecificities / lineNumbers with other preferences over the same DOMs '
+    'effective: ALL declaration blocks of 2..3 (thorough 4) declarations over two names x {plain, !important} with a repeated name under keepAllProperties=False: '
+    'exactly the effective declarations are written, for the sheet and for the block on its own. '
     'plus ladders of selectors of growing specificity (a, a.x, a.x#y, ..., optionally inside @media): no exception, layout only, '
     'defaults restore for parts and sheet. Non-trivial: >= 2 non-default preferences and the DOM holds '
     'an item at least one of them affects; distinct by (preferences, DOM).'
@@ -576,6 +578,54 @@ SUBS = [
     Sub('special', check_special, strategy=special_strategy, quick=800, thorough=20000, shards_quick=4),
 ]
 
+
+
+# --------------------------------------------------------------------------- keepAllProperties=False: the effective declarations (exhaustive)
+
+
+def effective_cases(tier):
+    import itertools
+    decls = [(n, p) for n in ('left', 'top') for p in ('', '!important')]
+    for k in (2, 3, 4) if tier == 'thorough' else (2, 3):
+        for combo in itertools.product(range(len(decls)), repeat=k):
+            if len({decls[i][0] for i in combo}) < len(combo):  # a name is repeated
+                yield {'decls': [list(decls[i]) for i in combo]}
+
+
+def check_effective(case, ctx):
+    decls = case['decls']
+    text = 'a { ' + '; '.join(f'{n}: {i + 1}px {p}'.strip() for i, (n, p) in enumerate(decls)) + ' }'
+    # the effective declaration of a name: the last important one, else the last one (statement of C10; computed from the case)
+    keep = {}
+    for i, (n, p) in enumerate(decls):
+        cands = [j for j, (m, q) in enumerate(decls) if m == n]
+        imp = [j for j in cands if decls[j][1]]
+        keep[n] = (imp or cands)[-1]
+    expected = [(n, f'{i + 1}px', 'important' if p else '') for i, (n, p) in enumerate(decls) if keep[n] == i]
+    ctx.case(text, True, {'text': text})
+    saved_mode = cssutils.log.raiseExceptions
+    cssutils.log.raiseExceptions = False
+    cssutils.ser.prefs.useDefaults()
+    try:
+        try:
+            d = cssutils.parseString(text)
+            cssutils.ser.prefs.keepAllProperties = False
+            out = d.cssText
+            part = d.cssRules[0].style.cssText
+            cssutils.ser.prefs.useDefaults()
+            got = [(p.name, p.value, p.priority) for p in cssutils.parseString(out).cssRules[0].style.getProperties(all=True)]
+            got_part = [(p.name, p.value, p.priority) for p in cssutils.css.CSSStyleDeclaration(cssText=part).getProperties(all=True)]
+        except Exception as e:  # noqa: BLE001
+            raise Violation('crash:effective:' + frame_sig(e), f'{text!r}: {e!r}')
+        if got != expected or got_part != expected:
+            raise Violation('effect:keepAllProperties:not-the-effective-declarations',
+                            f'{text!r} with keepAllProperties=False is written {out!r} / {part!r}: {got}, effective are {expected}')
+    finally:
+        cssutils.ser.prefs.useDefaults()
+        cssutils.log.raiseExceptions = saved_mode
+
+
+SUBS.append(Sub('effective', check_effective, enumerate=effective_cases, shards_quick=2, shards_thorough=4))
 
 from vlib.reported import reported_sub  # noqa: E402
 
